@@ -12,6 +12,7 @@ for P in sys.argv[4:]:
         sid='%s%s-%d'%(P,suf,k)
         d='/verif/seeded/'+sid
         os.makedirs(d,exist_ok=True)
+        if not os.path.isdir('%s_%s/out/%d'%(atkp,P,k)): continue
         for f in os.listdir('%s_%s/out/%d'%(atkp,P,k)):
             if f in ('demo','check.log') or f.endswith('.o'): continue
             src='%s_%s/out/%d/%s'%(atkp,P,k,f)
